@@ -462,7 +462,10 @@ def run_case(case, Violation):
                 op.pop("_skipped", None)
             return run, viols
 
-        emu_atoms = case["atoms"] + case.get("extra_atoms", [])
+        if case.get("extra_first"):
+            emu_atoms = case.get("extra_atoms", []) + case["atoms"]
+        else:
+            emu_atoms = case["atoms"] + case.get("extra_atoms", [])
         emu_reg = build_register(emu_atoms)
         ids = [a[0] for a in emu_atoms]
         coords = [tuple(float(x) for x in a[1]) for a in emu_atoms]
